@@ -314,9 +314,25 @@ def run_history(case):
                         third.remove_entity(victim[0])
                     del cg2, victim
             elif op == "copy_group":
-                # a copy of the whole group inside the same workspace: from now on two groups own rows
+                # a copy of the whole group inside the same workspace: from now on two groups own rows; the stored
+                # records of the source group (its attribute list, identifier list, data and index arrays) stay as they are
                 if ws.get_entity("DH copy")[0] is None:
+                    guid = str(g.uid)
+                    del hole, g
+                    ws.close()
+                    from contracts.histories import file_digests as node_digests
+
+                    before = {k: v for k, v in node_digests(path).items() if guid in k and "Concatenated Data" in k}
+                    ws = Workspace(path, mode="r+")
+                    g = ws.get_entity("DH")[0]
                     g.copy(name="DH copy")
+                    del g
+                    ws.close()
+                    after = {k: v for k, v in node_digests(path).items() if guid in k and "Concatenated Data" in k}
+                    ws = Workspace(path, mode="r+")
+                    changed = sorted(k.split("Concatenated Data")[-1] for k in set(before) | set(after) if before.get(k) != after.get(k))
+                    if changed:
+                        return f"after step {step}: copying the drillhole group inside its workspace changed the stored records of the source group at {changed[:4]} ({case})"
             elif op == "group_data":
                 from geoh5py.data import Data
 
